@@ -224,6 +224,28 @@ class SimRawSource(io.RawIOBase):
         return n
 
 
+class FramedBytesIO(io.BytesIO):
+    """A BytesIO holding MORE than the peer delivered (the next frame, stale buffer content):
+    read() - the only call kio's contract names - stops at the frame boundary ``limit``;
+    everything else is the inherited BytesIO behaviour.  A reader that obtains bytes through
+    readinto()/read1()/getbuffer() sees bytes the connection never delivered."""
+
+    def __init__(self, data: bytes, limit: int, budget: int | None = None) -> None:
+        super().__init__(data)
+        self._limit = limit
+        self._budget = budget
+        self._n = 0
+
+    def read(self, size=-1):
+        self._n += 1
+        if self._budget is not None and self._n > self._budget:
+            raise SimBudgetExceeded(f"read #{self._n} exceeds budget {self._budget}")
+        left = max(0, self._limit - self.tell())
+        if size is None or size < 0 or size > left:
+            size = left
+        return super().read(size)
+
+
 class SimRawUnbuffered(SimRawSource):
     """The raw source used *directly* (socket.SocketIO / FileIO / pipe style): read(n) returns
     at most n bytes and may come back short before EOF.  io.RawIOBase.read(n) allocates n bytes
